@@ -375,6 +375,15 @@ static void dump_node(const config_setting_t *s, const config_setting_t *parent,
   }
   else if(config_setting_length(s) != 0) queries_ok = 0;
 }
+/* config_clear frees the vector that owns the error file's name and leaves error_file alone (validity is promised only
+   until the configuration is cleared): dump must not read through a pointer into a freed vector.  A copy of the name is
+   taken after every call while the vector exists; once it is gone, the copy stands for the name. */
+static char *ef_copy;
+static void note_error_file(void)
+{
+  if(!cfg.error_file) { free(ef_copy); ef_copy = NULL; }
+  else if(cfg.filenames || !ef_copy) { free(ef_copy); ef_copy = strdup(cfg.error_file); }
+}
 static void dump(void)
 {
   static int path[4096];
@@ -411,7 +420,7 @@ static void dump(void)
   fprintf(out, "E %d ", (int)cfg.error_type);
   put_hs(cfg.error_text);
   fputc(' ', out);
-  put_hs(cfg.error_file);
+  put_hs(cfg.error_file ? (cfg.filenames || !ef_copy ? cfg.error_file : ef_copy) : NULL);
   fprintf(out, " %d\n", cfg.error_line);
   fprintf(out, "S links=%s queries=%s strings=%s names=%s\n", links_ok ? "ok" : "BAD", queries_ok ? "ok" : "BAD", strings_ok ? "ok" : "BAD",
           names_ok ? "ok" : "BAD");
@@ -1254,6 +1263,7 @@ int main(int argc, char **argv)
     run_line(line);
     if(incfn_switched) { setlocale(LC_NUMERIC, glob_name ? glob_name : "C"); incfn_switched = 0; }
     if(live) check_handed();
+    if(live) note_error_file();
     ev_flush();
 #if defined(DRV_FAULT) && defined(DRV_CXX)
     fprintf(out, "N %ld\n", alloc_count);      /* library allocations so far (to aim faults at the C++ calls) */
